@@ -155,7 +155,8 @@ PLANS = {
                 mc=[MC("MCWriter", "MCWriter_sorted_a.cfg", workers=8), MC("MCWriter", "MCWriter_sorted_b.cfg", workers=8),
                     MC("MCWriter", "MCWriter_L255.cfg", workers=2),
                     MC("MCWriter", "MCWriter_L255_asfound.cfg", workers=2, expect="fail:SortedNeverPanics")],
-                gen=[G("roundtrip", 600, 20000, "TraceCursor", "TraceCursor.cfg")]),
+                gen=[G("roundtrip", 600, 20000, "TraceCursor", "TraceCursor.cfg"),
+                     G("roundtrip", 200, 5000, "TraceCursor", "TraceCursor.cfg", release=True)]),
     "C02": dict(level="model_checking", assumptions=TRUST,
                 gen=[G("seeks", 64, 2000, "TraceCursor", "TraceCursor.cfg")]),
     "C04": dict(level="model_checking", assumptions=TRUST,
@@ -180,6 +181,7 @@ PLANS = {
     "C07": dict(level="model_checking", assumptions=TRUST + ["hook H2 lowers the minimum budget / initial capacity for the small-scale runs; rayon schedules are sampled (pool sizes), not enumerated"],
                 mc=[MC("MCSorter", "MCSorter_content.cfg", workers=8), MC("MCSorter", "MCSorter_content1.cfg", workers=8)],
                 gen=[G("sorter", 320, 12000, "TraceSorter", "TraceSorter_C07.cfg"),
+                     G("sorter", 160, 4000, "TraceSorter", "TraceSorter_C07.cfg", release=True),
                      G("sorter_real", 4, 48, "TraceSorter", "TraceSorter_C07.cfg")]),
     "C08": dict(level="model_checking", assumptions=TRUST + ["hook H2 lowers the minimum budget / initial capacity for the small-scale runs"],
                 mc=[MC("MCSorter", "MCSorter_acct_realloc.cfg", workers=4), MC("MCSorter", "MCSorter_acct_fixed.cfg", workers=4),
@@ -193,6 +195,7 @@ PLANS = {
                 gen=[G("format", 400, 12000, "TraceLayout", "TraceLayout_C09.cfg"),
                      # the same through a sink that accepts partial writes: recorded offsets must still be right
                      G("format", 120, 3000, "TraceLayout", "TraceLayout_C09.cfg", extra=["--wsched", "rand7"]),
+                     G("chunks", 32, 800, "TraceLayout", "TraceLayout_C09.cfg"),
                      G("varint_windows", 2, 8, "TraceVarint", "TraceVarint_C09.cfg")]),
     "C11": dict(level="model_checking", assumptions=TRUST + ["stream equality is judged on (length, two independent 31-bit digests)", "read-side: results under a schedule are validated against the same contract specifications as the whole-buffer runs"],
                 mc=[MC("MCIO", "MCIO_W.cfg", workers=2), MC("MCIO", "MCIO_R.cfg", workers=2),
@@ -223,7 +226,9 @@ PLANS = {
     "C15": dict(level="model_checking", assumptions=TRUST + ["independent decoder: sequential walk, codec crates, LEB128 framing parser"],
                 mc=[MC("MCWriter", "MCWriter_sorted_a.cfg", workers=8), MC("MCWriter", "MCWriter_sorted_b.cfg", workers=8)],
                 extra=[writer_model(["L3K1", "L4K3"], 40, 400)],
-                gen=[G("cut", 300, 10000, "TraceLayout", "TraceLayout_C15.cfg")]),
+                gen=[G("cut", 300, 10000, "TraceLayout", "TraceLayout_C15.cfg"),
+                     # the files the sorter writes itself (spilled and merged chunks)
+                     G("chunks", 48, 1500, "TraceLayout", "TraceLayout_C15.cfg")]),
     "C17": dict(level="other", explanation="Partial: decides the allocation protocol (layout equality, guard words, double free, leak of the sorter buffer class), the sorter's two-ended buffer bookkeeping (hook H2) and arithmetic overflow (checked build) on executions of the real code, validated by TLC against Alloc.tla. Out-of-bounds READS, use of freed memory through a lifetime-extended reference, alignment and provenance violations leave no trace in these events and are NOT decided (needs Miri/ASan, a different technique family).",
                 assumptions=TRUST + ["monitoring global allocator of the harness process (header + canaries per block)", "hook H2 exposes the sorter's buffer accounting", "overflow checks of the dev-profile build"],
                 mc=[MC("MCSorter", "MCSorter_acct_realloc.cfg", workers=4), MC("MCSorter", "MCSorter_acct_fixed.cfg", workers=4),
@@ -233,7 +238,9 @@ PLANS = {
                      G("alloc_readers", 40, 1200, "TraceAlloc", "TraceAlloc.cfg")]),
     "C18": dict(level="model_checking", assumptions=TRUST + ["independent decoder: sequential walk, codec crates, LEB128 framing parser"],
                 mc=[MC("MCWriter", "MCWriter_unsorted.cfg", workers=8)],
-                gen=[G("unsorted", 1200, 40000, "TraceLayout", "TraceLayout_C18.cfg")]),
+                gen=[G("unsorted", 1200, 40000, "TraceLayout", "TraceLayout_C18.cfg"),
+                     # the same with debug assertions compiled out (a release build of grenad)
+                     G("unsorted", 600, 10000, "TraceLayout", "TraceLayout_C18.cfg", release=True)]),
     "C03": dict(level="model_checking", assumptions=TRUST,
                 mc=[MC("MCCursor_t50", "MCCursor_t50_asfound.cfg", workers=8, expect="fail:Refines"),
                     MC("MCCursor_t9", "MCCursor_t9_fixed.cfg", workers=8, quick=False, timeout=7200),
